@@ -270,11 +270,11 @@ class EnumSpec:
         return items
 
     def path(self):
-        """Type path with concrete generic arguments, usable in expressions."""
-        return self.name + GENERICS[self.generics][2]
+        """Type path with concrete generic arguments, usable in expressions (alias emitted by render())."""
+        return self.name if not self.generics else "T" + self.name
 
     def ty(self):
-        return self.name + GENERICS[self.generics][2].replace("::<", "<")
+        return self.path()
 
     def render(self):
         lines = []
@@ -296,6 +296,8 @@ class EnumSpec:
         for v in self.variants:
             lines.append(v.render())
         lines.append("}")
+        if self.generics:
+            lines.append("pub type T%s = %s%s;" % (self.name, self.name, GENERICS[self.generics][2].replace("::<", "<")))
         return "\n".join(lines)
 
     # model helpers ---------------------------------------------------------------------------
